@@ -162,7 +162,7 @@ func drawDir(rt *rapid.T, label string, nixOK bool) string {
 var (
 	binKinds  = []string{"trunc", "bitflip", "bitflip", "subst", "subst", "zero", "dup", "swap", "garbage", "empty", "setu32", "setu32", "setu32", "nul"}
 	textKinds = []string{"trunc", "bitflip", "subst", "subst", "zero", "dup", "swap", "garbage", "empty", "cutquote", "delclose", "emptyval", "emptyval",
-		"longtok", "dupline", "delline", "nul", "crlf", "nullval", "nullval", "nullval", "strval", "strval"}
+		"longtok", "cutkey", "cutkey", "dupline", "delline", "nul", "crlf", "nullval", "nullval", "nullval", "strval", "strval"}
 )
 
 // isBinary: the content looks like a binary format (NUL among the first bytes, or a known magic).
@@ -191,7 +191,7 @@ func genOp(rt *rapid.T, size int, bin bool, label string) Op {
 		}
 		o.Val = pick(rt, 64, label+".val")
 		return o
-	case "cutquote", "delclose", "emptyval", "longtok", "dupline", "delline":
+	case "cutquote", "delclose", "emptyval", "longtok", "cutkey", "dupline", "delline":
 		// Off = which occurrence (reduced modulo their number when applied)
 		o.Off = rapid.IntRange(0, 400).Draw(rt, label+".nth")
 		if chance(rt, 50, label+".uni") {
